@@ -41,7 +41,7 @@ VOCAB = [
 def bounds(tier):
     q = tier == "quick"
     return {"L": 6 if q else 7, "K": 3 if q else 4, "random": 3000 if q else 60000,
-            "gcc_sample": 0.003 if q else 0.01}
+            "gcc_sample": 0.003 if q else 0.01, "long": 64 if q else 640}
 
 
 def exhaustive(tier):
@@ -52,7 +52,7 @@ def required_cells(tier):
     cells = [f"eol:{s}" for s in cscan.STATE_NAMES if s not in ("STRING", "CHAR")]
     cells += ["splice", "splice-in-comment", "splice-in-directive", "directive", "directive-multi-line",
               "comment-marker-in-literal", "quote-in-comment", "no-final-newline", "class:E1", "class:E2", "class:R",
-              "via-FileParser", "gcc-crosscheck", "crlf-line-ends"]
+              "via-FileParser", "gcc-crosscheck", "crlf-line-ends", "class:LONG", "line>65536"]
     return cells
 
 
@@ -116,6 +116,8 @@ def cells_of(text, ref):
         cells.add("quote-in-comment")
     if text and not text.endswith("\n"):
         cells.add("no-final-newline")
+    if len(text) > 65536 and max(map(len, text.split("\n"))) > 65536:
+        cells.add("line>65536")
     return cells
 
 
@@ -225,7 +227,7 @@ def check_text(ctx, text, cls, work, sample_rng, via_file=False):
     if not problems and via_file:
         problems = file_parser_check(ctx, text, ref, work)
         cells.add("via-FileParser")
-        if not problems and cls == "R" and len(text) % 7 == 0 and "\\" not in text:
+        if not problems and len(text) % 3 == 0 and "\r" not in text:
             problems = file_parser_check(ctx, text, ref, work, crlf=True)
             cells.add("crlf-line-ends")
     if not problems:
@@ -331,6 +333,28 @@ def run_shard(ctx):
         t = random_text(rng)
         if ctx.mine(i):
             check_text(ctx, t, "R", work, srng, via_file=True)
+    # LONG: physical lines longer than any plausible read buffer
+    rng = ctx.rng("long")
+    for i in range(b["long"]):
+        t = long_text(rng)
+        if ctx.mine(i):
+            check_text(ctx, t, "LONG", work, srng, via_file=True)
+
+
+LONG_FILL = [("a", "x"), ("/* ", "c"), ("\"", "s"), ("// ", "c"), ("# d ", "y"), ("", " "), ("b = ", "1 + ")]
+
+
+def long_text(rng):
+    """A random text in which one or two physical lines are longer than common read-buffer sizes (8 KiB .. 200 K
+    characters): a long identifier, comment, string literal, // comment, directive, run of blanks or expression."""
+    lines = random_text(rng).split("\n")
+    for _ in range(rng.choice([1, 1, 2])):
+        head, unit = rng.choice(LONG_FILL)
+        n = rng.choice([8191, 8192, 8193, 65535, 65536, 65537, 70000, 131071, 131073, 200001])
+        body = (unit * (n // len(unit) + 1))[:n]
+        tail = {"/* ": " */", "\"": "\""}.get(head, "")
+        lines.insert(rng.randint(0, len(lines)), head + body + tail + rng.choice(["", " z", ""]))
+    return "\n".join(lines)
 
 
 def replay(record, ctx):
